@@ -38,3 +38,10 @@ def run(ctx, test="^TestVerifC01$", name="C01"):
         # server, responses under foreign call ids) are replayed here as well
         import props.C04 as c04
         c04.run(ctx, name="C01-multi")
+        # a peer which answers every call several times (real sockets): each call returns the reply to itself
+        import props.C09 as c09
+        c09.run(ctx, test="^TestVerifDupResponses$", name="C01-dup")
+        # the races of a response, the caller's context and the caller's clean-up, forced by gates on both endpoints: whatever
+        # they leave behind, the next call returns the reply to itself
+        import props.C02 as c02
+        c02.gates(ctx, name="C01-gates")
